@@ -84,10 +84,18 @@ Definition shorter (p : pres) (s : string) : Prop :=
 Lemma shorter_le p s s' : shorter p s -> len s <= len s' -> shorter p s'.
 Proof. destruct p; simpl; auto; lia. Qed.
 
+Section Mode.
+Variable fm : fkind.
+Local Notation pnumber := (JsonParse.pnumber fm).
+Local Notation pvalue := (JsonParse.pvalue fm).
+Local Notation pelements := (JsonParse.pelements fm).
+Local Notation pmembers := (JsonParse.pmembers fm).
+Local Notation loads_mode := (JsonParse.loads_mode fm).
+
 Lemma pnumber_shorter s : shorter (pnumber s) s /\ pnumber s <> PFuel.
 Proof.
-  unfold pnumber. destruct (scan_number s) as [[l r]|] eqn:E; [|split; [exact I|discriminate]].
-  apply scan_number_shorter in E. destruct (num_of_lit l); simpl; split; auto; discriminate.
+  unfold JsonParse.pnumber. destruct (scan_number s) as [[l r]|] eqn:E; [|split; [exact I|discriminate]].
+  apply scan_number_shorter in E. destruct (num_of_lit fm l); simpl; split; auto; discriminate.
 Qed.
 
 Lemma lit_shorter w v s : w <> "" -> shorter (lit w v s) s /\ lit w v s <> PFuel.
@@ -130,6 +138,93 @@ Qed.
 Lemma pstring_shorter s b r : pstring s = Some (b, r) -> len r < len s.
 Proof. apply (pstring_shorter_n (len s)); lia. Qed.
 
+(* unfolding equations (cbn does not refold the mutual fixpoint) *)
+Lemma pvalue_S f depth s :
+  pvalue (S f) depth s =
+  match s with
+  | EmptyString => PErr
+  | String c r =>
+      let n := N_of_ascii c in
+      if N.eqb n 34 then
+        match pstring r with Some (body, r') => POk (JStr body) r' | None => PErr end
+      else if N.eqb n 123 then
+        match depth with
+        | O => PDeep
+        | S d =>
+            let r1 := skip_ws r in
+            match r1 with
+            | String c1 r2 => if N.eqb (N_of_ascii c1) 125 then POk (JObj []) r2 else pmembers f d r1 []
+            | EmptyString => PErr
+            end
+        end
+      else if N.eqb n 91 then
+        match depth with
+        | O => PDeep
+        | S d =>
+            let r1 := skip_ws r in
+            match r1 with
+            | String c1 r2 => if N.eqb (N_of_ascii c1) 93 then POk (JArr []) r2 else pelements f d r1 []
+            | EmptyString => PErr
+            end
+        end
+      else if N.eqb n 110 then lit "null" JNull s
+      else if N.eqb n 116 then lit "true" (JBool true) s
+      else if N.eqb n 102 then lit "false" (JBool false) s
+      else if N.eqb n 78 then lit "NaN" (JNum NNaN) s
+      else if N.eqb n 73 then lit "Infinity" (JNum (NInf false)) s
+      else if (N.eqb n 45 && match r with String i _ => N.eqb (N_of_ascii i) 73 | _ => false end)%bool
+      then lit "-Infinity" (JNum (NInf true)) s
+      else pnumber s
+  end.
+Proof. reflexivity. Qed.
+
+Lemma pelements_S f d s acc :
+  pelements (S f) d s acc =
+  match pvalue f d s with
+  | POk v r =>
+      match skip_ws r with
+      | String c r' =>
+          if N.eqb (N_of_ascii c) 44 then pelements f d (skip_ws r') (v :: acc)
+          else if N.eqb (N_of_ascii c) 93 then POk (JArr (List.rev (v :: acc))) r'
+          else PErr
+      | EmptyString => PErr
+      end
+  | e => e
+  end.
+Proof. reflexivity. Qed.
+
+Lemma pmembers_S f d s acc :
+  pmembers (S f) d s acc =
+  match s with
+  | String q r =>
+      if N.eqb (N_of_ascii q) 34 then
+        match pstring r with
+        | None => PErr
+        | Some (k, r1) =>
+            match skip_ws r1 with
+            | String c r2 =>
+                if N.eqb (N_of_ascii c) 58 then
+                  match pvalue f d (skip_ws r2) with
+                  | POk v r3 =>
+                      match skip_ws r3 with
+                      | String c' r4 =>
+                          if N.eqb (N_of_ascii c') 44 then pmembers f d (skip_ws r4) (dict_set k v acc)
+                          else if N.eqb (N_of_ascii c') 125 then POk (JObj (dict_set k v acc)) r4
+                          else PErr
+                      | EmptyString => PErr
+                      end
+                  | e => e
+                  end
+                else PErr
+            | EmptyString => PErr
+            end
+        end
+      else PErr
+  | EmptyString => PErr
+  end.
+Proof. reflexivity. Qed.
+
+
 (* ---- values: progress and fuel adequacy, by induction on the fuel ---- *)
 Definition good_v (f : nat) : Prop :=
   forall d s, shorter (pvalue f d s) s /\ (2 * len s + 1 <= f -> pvalue f d s <> PFuel).
@@ -140,7 +235,7 @@ Definition good_m (f : nat) : Prop :=
 
 Lemma good_v_step f : good_e f -> good_m f -> good_v (S f).
 Proof.
-  intros GE GM d s. cbn [pvalue].
+  intros GE GM d s. rewrite pvalue_S.
   destruct s as [|c r]; [split; [exact I|discriminate]|]. cbv zeta.
   destruct (N.eqb (N_of_ascii c) 34).
   { destruct (pstring r) as [[b r']|] eqn:E; [|split; [exact I|discriminate]].
@@ -173,7 +268,7 @@ Qed.
 
 Lemma good_e_step f : good_v f -> good_e f -> good_e (S f).
 Proof.
-  intros GV GE d s acc. cbn [pelements].
+  intros GV GE d s acc. rewrite pelements_S.
   destruct (GV d s) as [S1 F1].
   destruct (pvalue f d s) as [v r| | |] eqn:E.
   - simpl in S1. pose proof (skip_ws_le r) as W.
@@ -190,7 +285,7 @@ Qed.
 
 Lemma good_m_step f : good_v f -> good_m f -> good_m (S f).
 Proof.
-  intros GV GM d s acc. cbn [pmembers].
+  intros GV GM d s acc. rewrite pmembers_S.
   destruct s as [|q r]; [split; [exact I|discriminate]|].
   destruct (N.eqb (N_of_ascii q) 34); [|split; [exact I|discriminate]].
   destruct (pstring r) as [[k r1]|] eqn:E; [|split; [exact I|discriminate]].
@@ -221,9 +316,9 @@ Proof.
 Qed.
 
 (* every text: the model's answer is a value, a ValueError or a RecursionError -- never "out of fuel" *)
-Theorem loads_never_out_of_fuel limit s : loads limit s <> LFuel.
+Theorem loads_mode_never_out_of_fuel limit s : loads_mode limit s <> LFuel.
 Proof.
-  unfold loads. destruct (prefix_rest bom s); [discriminate|].
+  unfold JsonParse.loads_mode. destruct (prefix_rest bom s); [discriminate|].
   destruct (good_all (enough s)) as [GV _]. destruct (GV limit (skip_ws s)) as [_ F].
   pose proof (skip_ws_le s) as W.
   destruct (pvalue (enough s) limit (skip_ws s)) eqn:E; try discriminate.
@@ -231,7 +326,11 @@ Proof.
   - exfalso. apply F; [unfold enough; lia|reflexivity].
 Qed.
 
-(* more fuel never changes an answer that was not "out of fuel" *)
+End Mode.
+
+Theorem loads_never_out_of_fuel limit s : loads limit s <> LFuel.
+Proof. apply loads_mode_never_out_of_fuel. Qed.
+
 Theorem loads_trichotomy limit s :
   (exists v, loads limit s = LValue v) \/ loads limit s = LError \/ loads limit s = LRecursion.
 Proof.
